@@ -103,11 +103,30 @@ impl PanicInfo {
             return Origin::Harness(loc);
         }
         if let Some(bt) = &self.backtrace {
-            // Frames look like "   at /repo/compio-io/src/x.rs:12:5".
-            for l in bt.lines() {
+            // Frames look like "   at /repo/compio-io/src/x.rs:12:5". Everything up to the
+            // panic entry point (the capture itself, this hook, std's panic machinery) is
+            // skipped: the origin is the first repo / harness frame *below* the panic.
+            let lines: Vec<&str> = bt.lines().collect();
+            let start = lines
+                .iter()
+                .position(|l| l.contains("rust_begin_unwind") || l.contains("begin_panic_handler") || l.contains("std::panicking::begin_panic"))
+                .map_or(0, |i| i + 1);
+            for l in lines.into_iter().skip(start) {
                 let l = l.trim();
                 if let Some(p) = l.strip_prefix("at ") {
+                    if p.contains("vcommon/src/panics.rs") {
+                        continue;
+                    }
                     if is_repo(p) {
+                        // A panic raised inside a dependency is charged to the compio frame that
+                        // called it only for the small state-keeping crates whose panics mean
+                        // "the caller broke my protocol" (borrow flags, slab keys, ...) and for
+                        // the standard library; a panic inside a protocol implementation
+                        // (quinn-proto, rustls, ...) stays unattributed (inconclusive).
+                        const CHARGED: [&str; 7] = ["/thin-cell-", "/synchrony-", "/slab-", "/crossbeam-queue-", "/rustc/", "/library/", "/smallvec-"];
+                        if !CHARGED.iter().any(|c| self.file.contains(c)) {
+                            return Origin::Other(format!("{loc} via {p}"));
+                        }
                         let p = p.trim_start_matches("/repo/");
                         let p = p.rsplit_once(':').map_or(p, |x| x.0);
                         return Origin::Repo(p.to_string());
